@@ -59,6 +59,9 @@ func (w *World) sharedStateOn(fns []*ssa.Function) []stateUse {
 					if !ok || g.Pkg == nil || !strings.HasPrefix(g.Pkg.Pkg.Path(), RepoMod) {
 						continue
 					}
+					if !isFrozen(g) && w.lazyConstant(g) {
+						continue
+					}
 					if !isFrozen(g) {
 						k := g.String() + "|" + fn.String()
 						if !seen[k] {
@@ -133,4 +136,98 @@ func stateRule(c *Ctx, rule string, entries []*ssa.Function, known map[string]st
 // knownState: the package-level variables of the repository that are not frozen and yet are no memory of earlier calls.
 var knownState = map[string]string{
 	"internal/validate.validate": "the one go-playground validator, created by the package initialiser and only asked to validate; it caches struct metadata by type, nothing about values",
+}
+
+// lazyConstant: g is a package-level sync.Once used only as the receiver of Do with closures that capture nothing, or a
+// variable written only inside such closures: a value computed once from nothing but constants and other package-level
+// state - the lazy spelling of an initialiser, not a memory of any call's arguments.
+func (w *World) lazyConstant(g *ssa.Global) bool {
+	if w.lazyConst == nil {
+		w.lazyConst = map[*ssa.Global]bool{}
+		// closures handed to Do on a package-level Once, capturing nothing
+		onceOK := map[*ssa.Global]bool{}
+		initClosure := map[*ssa.Function]bool{}
+		for _, fn := range w.repoFns {
+			for _, call := range callsIn(fn) {
+				if calleeName(call) != "(*sync.Once).Do" || len(call.Common().Args) != 2 {
+					continue
+				}
+				og, isG := call.Common().Args[0].(*ssa.Global)
+				if !isG {
+					continue
+				}
+				if _, seen := onceOK[og]; !seen {
+					onceOK[og] = true
+				}
+				cl, isFn := strip(call.Common().Args[1]).(*ssa.Function)
+				if !isFn || len(cl.FreeVars) != 0 {
+					onceOK[og] = false
+					continue
+				}
+				initClosure[cl] = true
+			}
+		}
+		// a Once used in any other way is state like any other
+		for _, fn := range w.repoFns {
+			for _, b := range fn.Blocks {
+				for _, ins := range b.Instrs {
+					for _, op := range ins.Operands(nil) {
+						if op == nil || *op == nil {
+							continue
+						}
+						og, isG := (*op).(*ssa.Global)
+						if !isG {
+							continue
+						}
+						if _, tracked := onceOK[og]; tracked {
+							if call, isCall := ins.(ssa.CallInstruction); !isCall || calleeName(call) != "(*sync.Once).Do" {
+								onceOK[og] = false
+							}
+						}
+					}
+				}
+			}
+		}
+		for og, ok := range onceOK {
+			if ok {
+				w.lazyConst[og] = true
+			}
+		}
+		// variables stored only inside those closures (and never handed out by address)
+		stores := map[*ssa.Global][]*ssa.Function{}
+		escapes := map[*ssa.Global]bool{}
+		for _, fn := range w.repoFns {
+			for _, b := range fn.Blocks {
+				for _, ins := range b.Instrs {
+					switch x := ins.(type) {
+					case *ssa.Store:
+						if sg, isG := x.Addr.(*ssa.Global); isG {
+							stores[sg] = append(stores[sg], fn)
+						}
+						if sg, isG := x.Val.(*ssa.Global); isG {
+							escapes[sg] = true
+						}
+					case ssa.CallInstruction:
+						for _, a := range x.Common().Args {
+							if sg, isG := a.(*ssa.Global); isG && !onceOK[sg] {
+								escapes[sg] = true
+							}
+						}
+					}
+				}
+			}
+		}
+		for sg, fns := range stores {
+			ok := !escapes[sg]
+			for _, fn := range fns {
+				if !initClosure[fn] && fn.Name() != "init" && !strings.HasPrefix(fn.Name(), "init#") {
+					ok = false
+				}
+			}
+			if ok {
+				w.lazyConst[sg] = true
+			}
+		}
+	}
+	return w.lazyConst[g]
 }
